@@ -35,10 +35,11 @@ Print Assumptions C06_dropped_state_is_reclaimed.
 
 (** * Under the poll / drop versus dispatch race (Model/OpRace.v, small-step at hook-B
     granularity; all programs obeying [progs_ok], ALL interleavings; replayed against the real
-    code by the driver C03R on every run of this check): the state box is freed at most once and
-    never touched afterwards; a dropped running operation is freed exactly when its final
-    completion is dispatched and is never orphaned; at most one cancel request per operation,
-    only for a dropped one. *)
+    code by the driver C03R on every run of this check), single-shot, multishot and two-step
+    operations with any completion scripts: the state box is freed at most once and never touched
+    afterwards; a dropped running operation is freed exactly when its FINAL completion (no F_MORE)
+    is dispatched -- never on a completion with F_MORE -- and is never orphaned; at most one cancel
+    request per operation, only for a dropped one. *)
 Theorem C06_race_state_reclaimed_exactly_once : OpRaceProofs.race_state_reclaimed_exactly_once.
 Proof. exact OpRaceProofs.race_state_reclaimed_exactly_once_holds. Qed.
 
@@ -47,7 +48,14 @@ Proof. exact OpRaceProofs.race_state_reclaimed_exactly_once_holds. Qed.
 Theorem C06_race_reclaimed_c06a_leaks : OpRaceProofs.race_reclaimed_c06a_leaks.
 Proof. exact OpRaceProofs.race_reclaimed_c06a_leaks_holds. Qed.
 
+(** Seeded change C06-b (a dropped two-step operation released on its first completion): the state
+    is freed while the notification is outstanding, then touched and freed again. *)
+Theorem C06_race_two_step_c06b_freed_early : OpRaceProofs.race_two_step_c06b_freed_early.
+Proof. exact OpRaceProofs.race_two_step_c06b_freed_early_holds. Qed.
+
 Check C06_race_state_reclaimed_exactly_once : OpRaceProofs.race_state_reclaimed_exactly_once.
+Check C06_race_two_step_c06b_freed_early : OpRaceProofs.race_two_step_c06b_freed_early.
+Print Assumptions C06_race_two_step_c06b_freed_early.
 Check C06_race_reclaimed_c06a_leaks : OpRaceProofs.race_reclaimed_c06a_leaks.
 Print Assumptions C06_race_state_reclaimed_exactly_once.
 Print Assumptions C06_race_reclaimed_c06a_leaks.
